@@ -128,7 +128,15 @@ func (t *FnTrans) intrinsic(key string, c *ssa.CallCommon, args []Val, res ssa.V
 			mode = "1"
 		}
 		t.set(comp, app("store", t.get(comp), ref, mode))
+		if mode == "2" {
+			t.cur.Held[comp+"|"+ref] = 2
+		} else {
+			t.cur.Held[comp+"|"+ref] = 1
+		}
 		t.acquire(mon, ref)
+		if mon != nil {
+			t.ghostAt("after acquire")
+		}
 	case "trylock", "tryrlock":
 		okn := t.newConst("trylock", "Bool")
 		mode := "2"
@@ -145,11 +153,14 @@ func (t *FnTrans) intrinsic(key string, c *ssa.CallCommon, args []Val, res ssa.V
 		}
 	case "unlock":
 		t.oblige("unlock.held", eq(cur, "2"), "Unlock of a mutex that is not write-held")
+		t.ghostAt("before unlock")
 		t.release(mon, ref)
 		t.set(comp, app("store", t.get(comp), ref, "0"))
+		t.cur.Held[comp+"|"+ref] = 0
 	case "runlock":
 		t.oblige("unlock.held", eq(cur, "1"), "RUnlock of a mutex that is not read-held")
 		t.set(comp, app("store", t.get(comp), ref, "0"))
+		t.cur.Held[comp+"|"+ref] = 0
 	}
 	return true
 }
@@ -193,12 +204,35 @@ func (t *FnTrans) acquire(mon *monRef, ref string) {
 	if mon == nil {
 		return
 	}
-	tname := tshort(mon.ts.Name)
 	if t.ct != nil && t.ct.Opts["sequential"] != "" {
 		// sequential proof variant: no other goroutine exists, guarded state keeps its value;
 		// the monitor invariant holds whenever the lock is free
 		t.assumeMonitorInv(mon, ref)
 		return
+	}
+	t.acquireHavocOnly(mon, ref)
+	t.assumeMonitorInv(mon, ref)
+}
+
+// acquireHavocOnly: other goroutines may have changed everything the monitor guards.
+func (t *FnTrans) acquireHavocOnly(mon *monRef, ref string) {
+	tname := tshort(mon.ts.Name)
+	for _, cf := range mon.mon.Conds {
+		sc, oc, dc := t.condComps(tname, cf)
+		for _, c := range []string{sc, oc, t.wakeComp(tname, cf)} {
+			fv := t.newConst(c+"@acq", "Int")
+			t.assume(app(">=", fv, "0"))
+			t.cur.H[c] = app("store", t.get(c), ref, fv)
+		}
+		// owed = sum over all threads of their debts
+		t.assume(app(">=", app("select", t.get(oc), ref), app("select", t.get(dc), ref)))
+	}
+	for _, tk := range mon.mon.Tokens {
+		sh, mine := t.tokComps(tname, tk)
+		fv := t.newConst(sh+"@acq", "Int")
+		t.assume(app(">=", fv, app("select", t.get(mine), ref))) // shared count = sum over all threads
+		t.assume(app(">=", fv, "0"))
+		t.cur.H[sh] = app("store", t.get(sh), ref, fv)
 	}
 	// other goroutines may have changed the guarded fields: havoc them at this object
 	for _, g := range mon.mon.Guards {
@@ -257,7 +291,6 @@ func (t *FnTrans) acquire(mon *monRef, ref string) {
 		}
 		t.cur.H[c] = app("store", t.get(c), ref, fv)
 	}
-	t.assumeMonitorInv(mon, ref)
 }
 
 func (t *FnTrans) release(mon *monRef, ref string) {
@@ -388,9 +421,58 @@ func (t *FnTrans) checkGuarded(p *Ptr, write bool) {
 func (t *FnTrans) checkGuardedWrite(p *Ptr) {}
 
 // ---------- condition variables (Hamin & Jacobs style ghost counters) ----------
+// Per condition variable C of a monitor: ghost sleep_C (threads asleep on C) and owed_C
+// (notifications that awake threads have promised: recorded with `owe C if e` before they release
+// the monitor lock, discharged by their Signal/Broadcast, which may happen outside the lock).
+// Both are monitor-guarded ghost fields; TD.<type>.<C> is the thread-local count of debts this
+// thread holds. The monitor invariant relates them (no lost wake-up); it is checked at every
+// release, and for out-of-lock notifications as an atomic ghost action on an arbitrary state
+// satisfying the invariant (obligations mon.notify).
+
+func (t *FnTrans) condMonitor(tname, field string) *monRef {
+	for name, ts := range t.eng.specs.Types {
+		if tshort(name) != tname {
+			continue
+		}
+		for _, m := range ts.Monitors {
+			for _, cf := range m.Conds {
+				if cf == field {
+					return &monRef{ts: ts, mon: m}
+				}
+			}
+		}
+	}
+	return nil
+}
+
+func (t *FnTrans) condComps(tname, field string) (sleep, owed, debt string) {
+	sleep = t.comp("H."+tname+".$sleep_"+field, "(Array Int Int)")
+	owed = t.comp("H."+tname+".$owed_"+field, "(Array Int Int)")
+	debt = t.comp("TD."+tname+"."+field, "(Array Int Int)")
+	return
+}
+
+func (t *FnTrans) wakeComp(tname, field string) string {
+	return t.comp("H."+tname+".$wake_"+field, "(Array Int Int)")
+}
+
+// tokComps: shared count and this thread's count of a declared ghost token.
+func (t *FnTrans) tokComps(tname, name string) (shared, mine string) {
+	return t.comp("H."+tname+".$tok_"+name, "(Array Int Int)"), t.comp("TD."+tname+".tok."+name, "(Array Int Int)")
+}
+
+// havocMonitor: what other goroutines may have done while the lock was not held.
+func (t *FnTrans) havocMonitor(mon *monRef, ref string) {
+	save := t.ct
+	if t.ct != nil && t.ct.Opts["sequential"] != "" {
+		// even sequential variants must treat out-of-lock points as interference-free: nothing to do
+		return
+	}
+	t.ct = save
+	t.acquireHavocOnly(mon, ref)
+}
 
 func (t *FnTrans) condIntrinsic(kind string, c *ssa.CallCommon, args []Val, res ssa.Value) bool {
-	// receiver: *sync.Cond loaded from a field: find which field through the SSA load
 	field, ownerRef, tname := t.condField(c.Args[0])
 	if field == "" {
 		t.abstr["cond-unresolved"] = true
@@ -399,19 +481,7 @@ func (t *FnTrans) condIntrinsic(kind string, c *ssa.CallCommon, args []Val, res 
 		}
 		return true
 	}
-	var mon *monRef
-	for name, ts := range t.eng.specs.Types {
-		if tshort(name) != tname {
-			continue
-		}
-		for _, m := range ts.Monitors {
-			for _, cf := range m.Conds {
-				if cf == field {
-					mon = &monRef{ts: ts, mon: m}
-				}
-			}
-		}
-	}
+	mon := t.condMonitor(tname, field)
 	if mon == nil {
 		if kind == "wait" {
 			t.fail("sync.Cond.Wait on %s.%s: no monitor declares this condition variable", tname, field)
@@ -419,33 +489,78 @@ func (t *FnTrans) condIntrinsic(kind string, c *ssa.CallCommon, args []Val, res 
 		t.abstr["cond-undeclared:"+tname+"."+field] = true
 		return true
 	}
-	sc := t.comp("H."+tname+".$sleep_"+field, "(Array Int Int)")
-	sl := app("select", t.get(sc), ownerRef)
+	sc, oc, dc := t.condComps(tname, field)
 	lc := t.comp("L."+tname+"."+mon.mon.Lock, "(Array Int Int)")
+	hk := lc + "|" + ownerRef
+	sl := func() string { return app("select", t.get(sc), ownerRef) }
 	switch kind {
 	case "wait":
 		t.oblige("wait.held", eq(app("select", t.get(lc), ownerRef), "2"), "Cond.Wait requires the monitor lock")
 		// go to sleep: one more sleeper; release the monitor
-		t.set(sc, app("store", t.get(sc), ownerRef, app("+", sl, "1")))
+		t.ghostAt("before wait")
+		t.set(sc, app("store", t.get(sc), ownerRef, app("+", sl(), "1")))
 		t.release(mon, ownerRef)
-		// woken up (by a Signal/Broadcast that decremented the sleeper count) and re-acquired
+		// woken up by a Signal/Broadcast (which moved this thread from the sleeper count to the
+		// wake-up grants) and re-acquired: consume the grant
 		t.acquire(mon, ownerRef)
-	case "signal":
-		t.set(sc, app("store", t.get(sc), ownerRef, ite(app(">", sl, "0"), app("-", sl, "1"), sl)))
-	case "broadcast":
-		t.set(sc, app("store", t.get(sc), ownerRef, "0"))
+		wc := t.wakeComp(tname, field)
+		wk := app("select", t.get(wc), ownerRef)
+		if t.ct == nil || t.ct.Opts["sequential"] == "" {
+			t.assume(app(">=", wk, "1")) // sync.Cond.Wait returns only when awoken by Signal/Broadcast
+		}
+		t.set(wc, app("store", t.get(wc), ownerRef, app("-", wk, "1")))
+		t.ghostAt("after wait")
+	case "signal", "broadcast":
+		upd := func() {
+			wc := t.wakeComp(tname, field)
+			wk := app("select", t.get(wc), ownerRef)
+			cur := sl()
+			if kind == "signal" {
+				t.set(wc, app("store", t.get(wc), ownerRef, ite(app(">", cur, "0"), app("+", wk, "1"), wk)))
+				t.set(sc, app("store", t.get(sc), ownerRef, ite(app(">", cur, "0"), app("-", cur, "1"), cur)))
+			} else {
+				t.set(wc, app("store", t.get(wc), ownerRef, app("+", wk, cur)))
+				t.set(sc, app("store", t.get(sc), ownerRef, "0"))
+			}
+		}
+		switch t.cur.Held[hk] {
+		case 2:
+			upd() // inside the critical section: covered by the invariant check at release
+		case 0:
+			// outside the lock: an atomic ghost action on an arbitrary state satisfying the invariant
+			myDebt := app("select", t.get(dc), ownerRef)
+			t.acquireHavocOnly(mon, ownerRef)
+			t.assumeMonitorInv(mon, ownerRef)
+			t.assume(app(">=", app("select", t.get(oc), ownerRef), myDebt)) // owed = sum of all threads' debts
+			upd()
+			pays := app(">", myDebt, "0")
+			t.set(oc, app("store", t.get(oc), ownerRef, ite(pays, app("-", app("select", t.get(oc), ownerRef), "1"), app("select", t.get(oc), ownerRef))))
+			t.set(dc, app("store", t.get(dc), ownerRef, ite(pays, app("-", myDebt, "1"), myDebt)))
+			for i, inv := range mon.mon.Inv {
+				env := t.monEnv(mon, ownerRef)
+				t.oblige("mon.notify", env.evalBool(inv.E), sprintf("monitor invariant %d of %s preserved by the out-of-lock %s on %s: %s", i+1, tname, kind, field, inv.Text))
+			}
+		default:
+			t.fail("cannot determine statically whether %s.%s is held at the %s of %s", tname, mon.mon.Lock, kind, field)
+		}
 	}
 	return true
 }
 
-// condField: the receiver of a Cond method is `*(&obj.field)`: returns field name, owner ref, type.
+// condField: the receiver of a Cond method is `&obj.field` (sync.Cond field) or `*(&obj.field)`
+// (*sync.Cond field): returns field name, owner ref, short type name.
 func (t *FnTrans) condField(v ssa.Value) (string, string, string) {
-	u, ok := v.(*ssa.UnOp)
-	if !ok {
-		return "", "", ""
-	}
-	fa, ok := u.X.(*ssa.FieldAddr)
-	if !ok {
+	var fa *ssa.FieldAddr
+	switch x := v.(type) {
+	case *ssa.FieldAddr:
+		fa = x
+	case *ssa.UnOp:
+		f, ok := x.X.(*ssa.FieldAddr)
+		if !ok {
+			return "", "", ""
+		}
+		fa = f
+	default:
 		return "", "", ""
 	}
 	p := t.ptrOf(fa)
@@ -573,7 +688,30 @@ func (t *FnTrans) intrinsicWrites(key string, c *ssa.CallCommon, l *loopInfo) bo
 	}
 	kind := intrinsicKeys[key]
 	if kind == "wait" || kind == "signal" || kind == "broadcast" {
-		return false
+		var fa *ssa.FieldAddr
+		switch x := recv.(type) {
+		case *ssa.FieldAddr:
+			fa = x
+		case *ssa.UnOp:
+			fa, _ = x.X.(*ssa.FieldAddr)
+		}
+		if fa == nil {
+			return false
+		}
+		comp, _, ok := t.staticFieldComp(fa)
+		if !ok {
+			return false
+		}
+		tname, field, ok := compParts(comp)
+		if !ok {
+			return false
+		}
+		mon := t.condMonitor(tname, field)
+		if mon == nil {
+			return false
+		}
+		t.monitorWrites(mon, tname, l, fa.X)
+		return true
 	}
 	if u, isLoad := recv.(*ssa.UnOp); isLoad {
 		recv = u.X
@@ -589,6 +727,46 @@ func (t *FnTrans) intrinsicWrites(key string, c *ssa.CallCommon, l *loopInfo) bo
 	t.w(l, "L"+comp[1:], "(Array Int Int)")
 	if mon := t.monitorOfComp(comp); mon != nil {
 		tname, _, _ := compParts(comp)
+		t.monitorWrites(mon, tname, l, fa.X)
+	}
+	return true
+}
+
+// monitorWrites: everything an acquisition of the monitor may change.
+func (t *FnTrans) monitorWrites(mon *monRef, tname string, l *loopInfo, base ssa.Value) {
+	before := map[string]bool{}
+	for c := range l.writes {
+		before[c] = true
+	}
+	defer func() {
+		// all of these writes are at the monitor's owner object
+		if base == nil || !t.viaCalls {
+			return
+		}
+		for c := range l.writes {
+			if !before[c] && strings.HasPrefix(t.compSort[c], "(Array Int ") && !strings.HasPrefix(c, "E.") && !strings.HasPrefix(c, "GG.") {
+				t.noteVia(l, c, base)
+				t.viaNoted[c] = true
+			}
+		}
+	}()
+	t.w(l, "L."+tname+"."+mon.mon.Lock, "(Array Int Int)")
+	for _, cf := range mon.mon.Conds {
+		sc, oc, _ := t.condComps(tname, cf)
+		l.writes[sc], l.writes[oc], l.writes[t.wakeComp(tname, cf)] = true, true, true
+	}
+	for _, tk := range mon.mon.Tokens {
+		sh, mine := t.tokComps(tname, tk)
+		l.writes[sh] = true
+		if t.ct != nil {
+			for _, g := range t.ct.Ghost {
+				if strings.HasPrefix(g.Text, "take "+tk) || strings.HasPrefix(g.Text, "give "+tk) {
+					l.writes[mine] = true // this function moves the token (e.g. around a Wait)
+				}
+			}
+		}
+	}
+	if true {
 		for _, g := range mon.mon.Guards {
 			if strings.HasPrefix(g, "global:") {
 				pkg := mon.ts.Name[:strings.LastIndex(mon.ts.Name, ".")]
@@ -610,5 +788,129 @@ func (t *FnTrans) intrinsicWrites(key string, c *ssa.CallCommon, l *loopInfo) bo
 			}
 		}
 	}
-	return true
+}
+
+// ghostAt runs the contract's ghost statements declared for a program point kind
+// ("after acquire", "before unlock").
+func (t *FnTrans) ghostAt(where string) {
+	if t.ct == nil {
+		return
+	}
+	for _, g := range t.ct.Ghost {
+		if g.Arg == where {
+			t.ghostUpdate(g, t.selfEnv(t.cur, t.entry))
+		}
+	}
+}
+
+// oweStmt: `owe <cond field> if <expr>`: this thread promises a notification on the receiver's
+// condition variable (must be executed while the monitor lock is held).
+func (t *FnTrans) oweStmt(g *Clause, env *Env) {
+	rest := strings.TrimSpace(strings.TrimPrefix(g.Text, "owe "))
+	field, cond := rest, "true"
+	if i := strings.Index(rest, " if "); i >= 0 {
+		field, cond = strings.TrimSpace(rest[:i]), strings.TrimSpace(rest[i+4:])
+	}
+	ce, err := ParseExpr(cond)
+	if err != nil {
+		t.fail("%s:%d: %v", g.File, g.Line, err)
+	}
+	recv, ok := t.paramVals[t.recvName]
+	if !ok {
+		t.fail("%s:%d: owe outside a method", g.File, g.Line)
+	}
+	RT := t.paramTypes[t.recvName]
+	n, ok := derefNamed(RT)
+	if !ok {
+		t.fail("%s:%d: owe: receiver is not a named type", g.File, g.Line)
+	}
+	tname := tshort(typeName(n.Origin()))
+	mon := t.condMonitor(tname, field)
+	if mon == nil {
+		t.fail("%s:%d: owe: %s.%s is not a declared condition variable", g.File, g.Line, tname, field)
+	}
+	_, oc, dc := t.condComps(tname, field)
+	lc := t.comp("L."+tname+"."+mon.mon.Lock, "(Array Int Int)")
+	t.oblige("owe.held", eq(app("select", t.get(lc), recv.S), "2"), "a notification debt is recorded while the monitor lock is held")
+	env.st = t.cur
+	c := env.evalBool(ce)
+	o := app("select", t.get(oc), recv.S)
+	d := app("select", t.get(dc), recv.S)
+	t.set(oc, app("store", t.get(oc), recv.S, ite(c, app("+", o, "1"), o)))
+	t.set(dc, app("store", t.get(dc), recv.S, ite(c, app("+", d, "1"), d)))
+}
+
+// tokenStmt: `take <token> [if e]` / `give <token> [if e]` on the receiver's monitor.
+func (t *FnTrans) tokenStmt(g *Clause, env *Env) {
+	f := strings.Fields(g.Text)
+	kind, name := f[0], f[1]
+	cond := "true"
+	if i := strings.Index(g.Text, " if "); i >= 0 {
+		cond = strings.TrimSpace(g.Text[i+4:])
+	}
+	ce, err := ParseExpr(cond)
+	if err != nil {
+		t.fail("%s:%d: %v", g.File, g.Line, err)
+	}
+	recv, ok := t.paramVals[t.recvName]
+	if !ok {
+		t.fail("%s:%d: token statement outside a method", g.File, g.Line)
+	}
+	n, ok := derefNamed(t.paramTypes[t.recvName])
+	if !ok {
+		t.fail("%s:%d: token statement: receiver is not a named type", g.File, g.Line)
+	}
+	tname := tshort(typeName(n.Origin()))
+	var mon *monRef
+	for _, ts := range []*TypeSpec{t.eng.specs.Types[typeName(n.Origin())]} {
+		if ts == nil {
+			continue
+		}
+		for _, m := range ts.Monitors {
+			for _, tk := range m.Tokens {
+				if tk == name {
+					mon = &monRef{ts: ts, mon: m}
+				}
+			}
+		}
+	}
+	if mon == nil {
+		t.fail("%s:%d: %s is not a declared token of %s", g.File, g.Line, name, tname)
+	}
+	sh, mine := t.tokComps(tname, name)
+	lc := t.comp("L."+tname+"."+mon.mon.Lock, "(Array Int Int)")
+	t.oblige("token.held", eq(app("select", t.get(lc), recv.S), "2"), "tokens change hands only while the monitor lock is held")
+	env.st = t.cur
+	c := env.evalBool(ce)
+	s0 := app("select", t.get(sh), recv.S)
+	m0 := app("select", t.get(mine), recv.S)
+	d := "1"
+	if kind == "give" {
+		t.oblige("token.give", implies(c, app(">=", m0, "1")), "a token can only be given up by the thread that holds it ("+name+")")
+		d = "(- 1)"
+	}
+	t.set(sh, app("store", t.get(sh), recv.S, ite(c, app("+", s0, d), s0)))
+	t.set(mine, app("store", t.get(mine), recv.S, ite(c, app("+", m0, d), m0)))
+}
+
+// debtsExit: a function returns holding exactly the notification debts it was called with
+// (unless its contract says otherwise: opt debts-change).
+func (t *FnTrans) debtsExit() {
+	if t.ct != nil && t.ct.Opts["debts-change"] != "" {
+		return
+	}
+	for c, s := range t.compSort {
+		if !strings.HasPrefix(c, "TD.") || s == "" {
+			continue
+		}
+		now, ok := t.cur.H[c]
+		if !ok {
+			continue
+		}
+		was := t.entryVersion(c)
+		if now == was {
+			continue
+		}
+		t.oblige("owed.exit", "(forall ((d$r Int)) (= (select "+now+" d$r) (select "+was+" d$r)))", "every promised notification was delivered before returning ("+c+")")
+	}
 }
